@@ -13,6 +13,7 @@ import (
 )
 
 type Exec struct {
+	softErr error // contract/code mismatch that matters only if every obligation is discharged
 	structSel map[*SExpr]bool // contract selections of struct-typed fields (static property of the expression)
 	headVals map[*ssa.Phi]Value // at a back edge: the values the iteration started with (x$head)
 	P        *Program
@@ -269,7 +270,10 @@ func (e *Exec) Verify() (obls []*Obligation, err error) {
 				continue // a remembered value that is never defined stays false
 			}
 			if e.counts[fmt.Sprintf("fired:site:%d:%s", ai, sa.When)] == 0 {
-				return nil, fmt.Errorf("%s: contract clause '%s %s: %s' matches no program point", shortKey(e.topName), sa.When, sa.Pattern, sa.Clause.Text)
+				// a tool error unless an obligation of the function fails anyway (then the
+				// failure is what is reported: the code changed under the contract)
+				e.softErr = fmt.Errorf("%s: contract clause '%s %s: %s' matches no program point", shortKey(e.topName), sa.When, sa.Pattern, sa.Clause.Text)
+				break
 			}
 		}
 		for n := range e.fc.Loops {
